@@ -9,23 +9,23 @@ open PromVerif.Py PromVerif.Model PromVerif.Model.Escape PromVerif.Model.Validat
 open PromVerif.Generated.Expo PromVerif.Generated.Validation
 open PromVerif.Spec.LineGrammar hiding Str
 
-/-- hypotheses on an exemplar: label names in the bare alphabet (they are written raw — finding F3), numbers are numbers -/
+/-- preconditions on an exemplar: its value and float timestamp are number tokens.  Nothing is assumed about its
+label names (F3 repaired: they go through `escape_label_name`) or label values. -/
 def exemplarOK (e : Exemplar) : Bool :=
-  e.labels.all (fun kv => matchExact labelNameRe kv.1) && floatTok e.value &&
-    (match e.ts with | none => true | some t => tsOK t)
+  floatTok e.value && (match e.ts with | none => true | some t => tsOK t)
 
-/-- hypotheses on one sample for OpenMetrics -/
+/-- preconditions on one sample for OpenMetrics: numbers are number tokens -/
 def sampleOKOM (s : Sample) : Bool :=
   sampleOKText s && (match s.ts with | none => true | some t => tsOK t.ts) &&
     (match s.exemplar with | none => true | some e => exemplarOK e)
 
 -- label lists -------------------------------------------------------------------------------------------------
-theorem om_labelItem (f : Bool) (kv : Str × Str) (h : f2Name labelNameRe kv.1 = false) :
-    run true (.lb false f) (OMExpo.labelItem kv) = .qe .lval := run_labelItem true f kv.1 kv.2 h
+theorem om_labelItem (f : Bool) (kv : Str × Str) :
+    run true (.lb false f) (OMExpo.labelItem kv) = .qe .lval := run_labelItem true false f kv.1 kv.2
 
-theorem om_labels_run (f : Bool) (ls : List (Str × Str)) (hne : ls ≠ []) (hok : labelsOK ls = true) :
+theorem om_labels_run (f : Bool) (ls : List (Str × Str)) (hne : ls ≠ []) :
     run true (.lb false f) (joinStr [','] ((sortByKey ls).map OMExpo.labelItem)) = .qe .lval :=
-  run_sortedLabels true OMExpo.labelItem om_labelItem ls hne hok f
+  run_sortedLabels true false OMExpo.labelItem om_labelItem ls hne f
 
 theorem om_labels_ne_nil (ls : List (Str × Str)) (hne : ls ≠ []) :
     joinStr [','] ((sortByKey ls).map OMExpo.labelItem) ≠ [] := by
@@ -33,39 +33,29 @@ theorem om_labels_ne_nil (ls : List (Str × Str)) (hne : ls ≠ []) :
   | nil => exact absurd hsl (sortByKey_ne_nil ls hne)
   | cons kv l => exact joinStr_ne_nil _ _ _ (by simp [OMExpo.labelItem])
 
-theorem run_exItem (f : Bool) (kv : Str × Str) (h : matchExact labelNameRe kv.1 = true) :
+/-- T1 fact (repaired F3): exemplar label names are written through `escape_label_name` -/
+theorem exemplar_name_escaped : PromVerif.Generated.Expo.exemplarNameEscaped = true := by decide
+
+/-- one exemplar label item, for EVERY label name and value -/
+theorem run_exItem (f : Bool) (kv : Str × Str) :
     run true (.lb true f) (OMExpo.exemplarItem kv) = .qe .exval := by
   unfold OMExpo.exemplarItem
-  have hb := run_bareLabel true true f kv.1 (matchExact_label_bare kv.1 h)
-  have hr : labelRest '=' = false := by decide
-  simp only [List.append_assoc, List.cons_append, List.nil_append, run_append, hb, escapeExemplarValue_eq]
-  simp [run_cons, run_append, step, hr, run_escape]
-
-theorem run_exList (f : Bool) (kv : Str × Str) (l : List (Str × Str))
-    (hok : ∀ x ∈ kv :: l, matchExact labelNameRe x.1 = true) :
-    run true (.lb true f) (joinStr [','] ((kv :: l).map OMExpo.exemplarItem)) = .qe .exval := by
-  induction l generalizing kv f with
-  | nil => simpa [joinStr] using run_exItem f kv (hok kv (by simp))
-  | cons y ys ih =>
-    simp only [List.map_cons, joinStr, List.append_assoc, run_append]
-    rw [run_exItem f kv (hok kv (by simp))]
-    have := ih false y (fun x hx => hok x (by simp [List.mem_cons] at hx ⊢; right; exact hx))
-    simp only [List.map_cons] at this
-    simpa [run_cons, step] using this
+  rw [if_pos exemplar_name_escaped, escapeExemplarValue_eq]
+  exact run_labelItem true true f kv.1 kv.2
 
 /-- `{labels}` of an exemplar, possibly empty -/
-theorem run_exLabels (ls : List (Str × Str)) (hok : ls.all (fun kv => matchExact labelNameRe kv.1) = true) (r : Str) :
+theorem run_exLabels (ls : List (Str × Str)) (r : Str) :
     run true (.lb true true) (joinStr [','] ((sortByKey ls).map OMExpo.exemplarItem) ++ '}' :: r) = run true .xal r := by
   cases hsl : sortByKey ls with
   | nil => simp [joinStr, run_cons, step]
   | cons kv l =>
-    have hall : ∀ x ∈ kv :: l, matchExact labelNameRe x.1 = true := by
-      intro x hx
-      have : x ∈ ls := (mem_sortByKey x ls).mp (by rw [hsl]; exact hx)
-      simp only [List.all_eq_true] at hok
-      exact hok x this
-    rw [run_append, run_exList true kv l hall]
+    rw [run_append, run_labelList true true true OMExpo.exemplarItem run_exItem kv l]
     simp [run_cons, step]
+
+theorem run_exLabels' (ls : List (Str × Str)) (r : Str) :
+    run true (run true (.lb true true) (joinStr [','] ((sortByKey ls).map OMExpo.exemplarItem))) ('}' :: r) =
+      run true .xal r := by
+  rw [← run_append]; exact run_exLabels ls r
 
 -- edges ---------------------------------------------------------------------------------------------------------
 theorem e_v_ex (r : Str) : run true .v (' ' :: '#' :: ' ' :: '{' :: r) = run true (.lb true true) r := by
@@ -106,20 +96,20 @@ theorem exPrefix : " # ".toList = [' ', '#', ' '] := rfl
 theorem run_exemplar (st : St) (hst : st = .v ∨ st = .t) (e : Exemplar) (h : exemplarOK e = true) :
     accepting (run true st (OMExpo.exemplarStr e)) = true := by
   simp only [exemplarOK, Bool.and_eq_true] at h
-  obtain ⟨⟨hl, hv⟩, ht⟩ := h
+  obtain ⟨hv, ht⟩ := h
   have hgo := run_exvalue _ (go_numTok _ hv)
   unfold OMExpo.exemplarStr
   dsimp only
   cases hts : e.ts with
   | none =>
     rcases hst with rfl | rfl <;>
-      simp only [exPrefix, List.append_assoc, List.cons_append, List.nil_append, e_v_ex, e_t_ex, run_exLabels _ hl,
+      simp only [exPrefix, List.append_assoc, List.cons_append, List.nil_append, e_v_ex, e_t_ex, run_exLabels, run_exLabels',
         e_xal_sp, run_append, hgo, accepting]
   | some t =>
     rw [hts] at ht
     have htt := run_ex_ts _ (tsStr_numTok t ht)
     rcases hst with rfl | rfl <;>
-      simp only [exPrefix, List.append_assoc, List.cons_append, List.nil_append, e_v_ex, e_t_ex, run_exLabels _ hl,
+      simp only [exPrefix, List.append_assoc, List.cons_append, List.nil_append, e_v_ex, e_t_ex, run_exLabels, run_exLabels',
         e_xal_sp, run_append, hgo, htt, accepting]
 
 -- the sample line ------------------------------------------------------------------------------------------------
@@ -170,13 +160,13 @@ theorem om_sampleLine_total (fam : Family) (s : Sample)
       split <;> exact ⟨_, rfl⟩
 
 theorem om_body_ok (s : Sample) (h : sampleOKOM s = true) : sampleLine true (omBody s) = true := by
-  simp only [sampleOKOM, sampleOKText, Bool.and_eq_true, Bool.not_eq_true'] at h
-  obtain ⟨⟨⟨⟨hn, hl⟩, hv⟩, hts⟩, hex⟩ := h
+  simp only [sampleOKOM, sampleOKText, Bool.and_eq_true] at h
+  obtain ⟨⟨hv, hts⟩, hex⟩ := h
   have hgo := run_value true _ (go_numTok _ hv)
   unfold omBody sampleLine
   dsimp only
   by_cases hleg : isValidLegacyMetricName s.name = true
-  · have hname := run_bareMetric true s.name (legacy_metric_bare s.name hn hleg)
+  · have hname := run_bareMetric true s.name (legacy_metric_bare s.name hleg)
     simp only [hleg, Bool.not_true, Bool.false_eq_true, if_false, if_true]
     cases hls : s.labels with
     | nil =>
@@ -209,7 +199,7 @@ theorem om_body_ok (s : Sample) (h : sampleOKOM s = true) : sampleLine true (omB
     | cons kv l =>
       have hne := om_labels_ne_nil (kv :: l) (by simp)
       have he1 := isEmpty_false_of_ne_nil _ hne
-      have hlab := om_labels_run true (kv :: l) (by simp) (by rw [← hls]; exact hl)
+      have hlab := om_labels_run true (kv :: l) (by simp)
       simp only [List.isEmpty_cons, Bool.false_eq_true, if_false, List.nil_append, he1]
       cases ht : s.ts with
       | none =>
@@ -269,7 +259,7 @@ theorem om_body_ok (s : Sample) (h : sampleOKOM s = true) : sampleLine true (omB
             e_s0_qname, e_mname_close, e_al_sp, htt']
           exact run_exemplar .t (Or.inr rfl) e hex
     | cons kv l =>
-      have hlab := om_labels_run false (kv :: l) (by simp) (by rw [← hls]; exact hl)
+      have hlab := om_labels_run false (kv :: l) (by simp)
       have he1 : (escapeMetricName s.name ++ [',', ' '] ++
           joinStr [','] ((sortByKey (kv :: l)).map OMExpo.labelItem)).isEmpty = false := by simp [hq]
       simp only [List.isEmpty_cons, Bool.false_eq_true, if_false, he1]
